@@ -60,7 +60,7 @@ def _normalise(world: str, heavy: bool, programs: list, cancels: list, swarm: di
                 pending.clear()
                 child = fix_body(stmt[2], False if task else sync, 0)
                 pending[:] = saved
-                out.append(['SPAWN', cid, child])
+                out.append(['SPAWN', cid, child, bool(stmt[3]) if len(stmt) > 3 else False])
             elif kind == 'JOIN':
                 if task and sync:
                     continue
@@ -166,7 +166,7 @@ def spec_strategy(heavy: bool):
             st.builds(lambda k, b: ['BLOCK', 0, k, b], kw, body),
             st.builds(lambda k, b: ['BLOCK', 0, k, b], kw, body),
             st.builds(lambda b, c: ['TRY', b, c], body, st.sampled_from(['exc', 'base', 'cancel'])),
-            st.builds(lambda b: ['SPAWN', 0, b], body),
+            st.builds(lambda b, a: ['SPAWN', 0, b, a], body, st.booleans()),
             st.builds(lambda b: ['CTXRUN', b], body),
             st.builds(lambda k, b: ['ENTER', k, b], small, body),
             st.builds(lambda d, b: ['TIMEOUT', d, b], st.sampled_from([0.0005, 0.2, 5, 1e6]), body),
